@@ -38,13 +38,6 @@ Proof.
     destruct (id' =? id) eqn:E; [apply N.eqb_eq in E; tauto|]. f_equal. apply IH; [now inversion L | tauto].
 Qed.
 
-Lemma take_e_inv n l a r : take_e n l = Ok (a, r) -> l = a ++ r /\ len a = n.
-Proof.
-  unfold take_e. destruct (n <=? len l) eqn:E; [|discriminate]. intros H. inversion H; subst. split.
-  - symmetry. apply firstn_skipn.
-  - unfold len in *. rewrite firstn_length. lia.
-Qed.
-
 Section Gbk.
 Variables (u2g g2u : list N -> list N) (gdom : list N -> bool).
 Hypothesis Hc : codec_ok u2g g2u gdom.
